@@ -7,6 +7,8 @@ import (
 	"go/token"
 	"go/types"
 	"os"
+
+	"sialint/internal/cfgx"
 )
 
 // ExpandOpt configures Expand.
@@ -17,6 +19,8 @@ type ExpandOpt struct {
 	Stop func(*types.Func) bool
 	// Depth bounds nested expansion (default 4).
 	Depth int
+	// Defers makes deferred calls explicit before every return (see expandDefers).
+	Defers bool
 }
 
 // Expand returns a view of the declared function f in which every call (in a
@@ -55,9 +59,19 @@ func (p *Prog) Expand(f *Func, opt ExpandOpt) *Func {
 	}
 	x.topWritten = x.writtenObjs(f.Body)
 	body.List = x.blockT(body.List, 0, true)
+	x.dropDeadClosures(body)
+	if opt.Defers {
+		if x.expandDefers(body) && x.inlinedCalls == nil {
+			x.inlinedCalls = map[ast.Node]bool{}
+		}
+	}
 	if len(x.inlinedCalls) > 0 && os.Getenv("SIALINT_NODETEMP") == "" {
-		// parameter bindings and result copies introduced by the expansion are temporaries like any other
+		// parameter bindings and result copies introduced by the expansion are temporaries like any other,
+		// and a struct that only bundled values for a helper is now a set of locals
 		p.detemp(x.info, body)
+		if os.Getenv("SIALINT_NOSROA") == "" && p.sroa(x.info, body) {
+			p.detemp(x.info, body)
+		}
 	}
 	v := &Func{P: p, Obj: f.Obj, Decl: f.Decl, Lit: f.Lit, Parent: f.Parent, Pkg: f.Pkg, Body: body, Type: f.Type, name: f.name, View: true, Base: f, Inlined: x.inlined, InlinedCalls: x.inlinedCalls}
 	p.indexLits(v, v, body, false)
@@ -679,6 +693,10 @@ func (x *expander) inline(call *ast.CallExpr, ctx *callCtx, depth int) ([]ast.St
 		// positioned at the operand, so that the binding occupies the operand's source range
 		def := &ast.Ident{NamePos: arg.Pos(), Name: nameID.Name}
 		x.info.Defs[def] = cl.mapObj(pobj)
+		if lit, isLit := ast.Unparen(arg).(*ast.FuncLit); isLit {
+			// a function literal handed to a helper that calls it: the call is expanded like any local closure's
+			x.closures[cl.mapObj(pobj)] = lit
+		}
 		out = append(out, &ast.AssignStmt{Lhs: []ast.Expr{def}, TokPos: arg.Pos(), Tok: token.DEFINE, Rhs: []ast.Expr{arg}})
 	}
 	if c.recv != nil && fn.Decl != nil && fn.Decl.Recv != nil && len(fn.Decl.Recv.List) == 1 {
@@ -1355,4 +1373,291 @@ func (x *expander) litForm(callp **ast.CallExpr, depth int) {
 	}
 	x.info.Types[lit] = types.TypeAndValue{Type: types.NewSignatureType(nil, nil, nil, nil, nil, false)}
 	*callp = &ast.CallExpr{Fun: lit, Lparen: at, Rparen: call.End()}
+}
+
+// expandDefers (ExpandOpt.Defers) makes deferred calls explicit: every return
+// of the view's function is preceded by copies of the bodies of the deferred
+// function literals registered on the way to it, last registered first;
+// `defer x.m(a)` with stable operands counts as `defer func(){ x.m(a) }()`.
+// A return whose results are computed by calls has them evaluated into
+// temporaries first, so the order "results, then deferred calls" is kept.
+// Together with the flag pruning of the graph this turns "set a flag, clean up
+// in a deferred closure if the flag is (not) set" into the same paths as explicit
+// clean-up calls before each return. The expansion is abandoned (body left as
+// it is) when a defer is registered on only some of the paths to a return, when
+// a deferred function recovers, or when an operand of a deferred call is not
+// stable. Panics are not modelled (as everywhere in the path rules).
+func (x *expander) expandDefers(body *ast.BlockStmt) bool {
+	// normalise `defer call(args)` to literals where possible
+	type deferred struct {
+		stmt *ast.DeferStmt
+		lit  *ast.FuncLit
+	}
+	var ds []*deferred
+	ok := true
+	Walk(body, false, func(n ast.Node) {
+		d, isDefer := n.(*ast.DeferStmt)
+		if !isDefer {
+			return
+		}
+		lit, isLit := ast.Unparen(d.Call.Fun).(*ast.FuncLit)
+		if !isLit || len(d.Call.Args) != 0 || (lit.Type.Params != nil && len(lit.Type.Params.List) != 0) {
+			if !x.deferToLit(d) {
+				ok = false
+				return
+			}
+			lit = ast.Unparen(d.Call.Fun).(*ast.FuncLit)
+		}
+		Walk(lit.Body, false, func(m ast.Node) {
+			if c, isCall := m.(*ast.CallExpr); isCall {
+				if id, isID := c.Fun.(*ast.Ident); isID && id.Name == "recover" {
+					ok = false
+				}
+			}
+		})
+		ds = append(ds, &deferred{d, lit})
+	})
+	if !ok || len(ds) == 0 {
+		return false
+	}
+	// an explicit return at the end of a body that falls off
+	if x.top.Type.Results == nil || len(x.top.Type.Results.List) == 0 {
+		if n := len(body.List); n == 0 || !isTerminating(body.List[n-1]) {
+			body.List = append(body.List, &ast.ReturnStmt{Return: body.Rbrace})
+		}
+	}
+	tmp := &Func{P: x.p, Pkg: x.top.Pkg, Body: body, Type: x.top.Type, Obj: x.top.Obj}
+	g := tmp.Graph()
+	plan := map[*ast.ReturnStmt][]*deferred{}
+	for _, rn := range g.Returns() {
+		rs, isRet := rn.AST.(*ast.ReturnStmt)
+		if !isRet {
+			continue
+		}
+		for _, d := range ds {
+			dn := g.NodeOf(d.stmt)
+			if dn == nil {
+				return false
+			}
+			reach := g.Reach([]*cfgx.Visit{cfgx.StartAt(dn, 0)}, nil)
+			if _, r := reach[rn]; !r {
+				continue
+			}
+			if !g.DominatedByNode(rn, dn) {
+				return false
+			}
+			plan[rs] = append(plan[rs], d)
+		}
+	}
+	written := map[types.Object]bool{}
+	for _, d := range ds {
+		for o := range x.writtenObjs(d.lit.Body) {
+			written[o] = true
+		}
+	}
+	body.List = mapReturns(body.List, func(r *ast.ReturnStmt) []ast.Stmt {
+		dl := plan[r]
+		if len(dl) == 0 {
+			return []ast.Stmt{r}
+		}
+		var out []ast.Stmt
+		// results first
+		hoist := false
+		for _, e := range r.Results {
+			if containsCall(e) {
+				hoist = true
+			}
+			ast.Inspect(e, func(n ast.Node) bool {
+				if id, isID := n.(*ast.Ident); isID && written[x.info.Uses[id]] {
+					hoist = true
+				}
+				return true
+			})
+		}
+		if hoist {
+			var lhs []ast.Expr
+			var uses []ast.Expr
+			mk := func(t types.Type) {
+				x.seq++
+				v := types.NewVar(r.Pos(), x.top.Pkg.Types, fmt.Sprintf("ret%d", x.seq), t)
+				def := &ast.Ident{NamePos: r.Pos(), Name: v.Name()}
+				x.info.Defs[def] = v
+				use := &ast.Ident{NamePos: r.Pos(), Name: v.Name()}
+				x.info.Uses[use] = v
+				lhs = append(lhs, def)
+				uses = append(uses, use)
+			}
+			for _, e := range r.Results {
+				switch t := x.info.TypeOf(e).(type) {
+				case *types.Tuple:
+					for i := 0; i < t.Len(); i++ {
+						mk(t.At(i).Type())
+					}
+				case nil:
+					return []ast.Stmt{r}
+				default:
+					// untyped nil and constants keep the declared result type
+					if b, isBasic := t.(*types.Basic); isBasic && b.Info()&types.IsUntyped != 0 {
+						return []ast.Stmt{r}
+					}
+					mk(t)
+				}
+			}
+			out = append(out, &ast.AssignStmt{Lhs: lhs, TokPos: r.Pos(), Tok: token.DEFINE, Rhs: r.Results})
+			r = &ast.ReturnStmt{Return: r.Return, Results: uses}
+		}
+		for i := len(dl) - 1; i >= 0; i-- {
+			lit := dl[i].lit
+			declared := map[types.Object]bool{}
+			ast.Inspect(lit, func(n ast.Node) bool {
+				if id, isID := n.(*ast.Ident); isID {
+					if o := x.info.Defs[id]; o != nil {
+						declared[o] = true
+					}
+				}
+				return true
+			})
+			cl := &cloner{p: x.p, info: x.info, off: x.p.shiftFile(lit.Pos()), objs: map[types.Object]types.Object{},
+				local: func(o types.Object) bool { return declared[o] }}
+			cp := cl.node(lit.Body).(*ast.BlockStmt)
+			x.seq++
+			end := fmt.Sprintf("dfr%d_end", x.seq)
+			used := false
+			suffix := fmt.Sprintf("_d%d", x.seq)
+			Walk(cp, false, func(n ast.Node) {
+				switch t := n.(type) {
+				case *ast.LabeledStmt:
+					t.Label.Name += suffix
+				case *ast.BranchStmt:
+					if t.Label != nil {
+						t.Label.Name += suffix
+					}
+				}
+			})
+			cp.List = mapReturns(cp.List, func(dr *ast.ReturnStmt) []ast.Stmt {
+				used = true
+				return []ast.Stmt{gotoStmt(end, dr.Pos())}
+			})
+			out = append(out, cp.List...)
+			if used {
+				out = append(out, labeled(end, r.Pos()))
+			}
+		}
+		return append(out, r)
+	})
+	// the registrations themselves become no-ops
+	for _, d := range ds {
+		d.stmt.Call = &ast.CallExpr{Fun: &ast.FuncLit{Type: &ast.FuncType{Func: d.stmt.Pos(), Params: &ast.FieldList{}}, Body: &ast.BlockStmt{Lbrace: d.stmt.Pos(), Rbrace: d.stmt.Pos()}}, Lparen: d.stmt.Pos(), Rparen: d.stmt.Pos()}
+		x.info.Types[d.stmt.Call.Fun] = types.TypeAndValue{Type: types.NewSignatureType(nil, nil, nil, nil, nil, false)}
+	}
+	return true
+}
+
+// deferToLit rewrites `defer f(a)` / `defer x.m(a)` into `defer func(){ f(a) }()` when every operand is stable.
+func (x *expander) deferToLit(d *ast.DeferStmt) bool {
+	call := d.Call
+	stable := func(e ast.Expr) bool {
+		if !x.substitutable(e) {
+			return false
+		}
+		ok := true
+		ast.Inspect(e, func(n ast.Node) bool {
+			if id, isID := n.(*ast.Ident); isID {
+				if o, isVar := x.info.Uses[id].(*types.Var); isVar && !o.IsField() && x.topWritten[x.p.OrigObj(o)] {
+					ok = false
+				}
+			}
+			return ok
+		})
+		return ok
+	}
+	switch fun := ast.Unparen(call.Fun).(type) {
+	case *ast.SelectorExpr:
+		if x.info.Selections[fun] != nil {
+			// x.f.m(): the receiver path is read when the call runs; fields reached through the (unchanged)
+			// receiver variable are assumed not to be re-pointed between registration and exit
+			root := fun.X
+			for {
+				if s, isSel := ast.Unparen(root).(*ast.SelectorExpr); isSel && x.info.Selections[s] != nil {
+					root = s.X
+					continue
+				}
+				break
+			}
+			if _, isID := ast.Unparen(root).(*ast.Ident); !isID || !stable(root) {
+				return false
+			}
+		}
+	case *ast.Ident:
+		if o, isVar := x.info.Uses[fun].(*types.Var); isVar && x.topWritten[x.p.OrigObj(o)] {
+			return false
+		}
+	default:
+		return false
+	}
+	for _, a := range call.Args {
+		if !stable(a) {
+			return false
+		}
+	}
+	at := call.Pos()
+	lit := &ast.FuncLit{
+		Type: &ast.FuncType{Func: at, Params: &ast.FieldList{Opening: at, Closing: at}},
+		Body: &ast.BlockStmt{Lbrace: at, List: []ast.Stmt{&ast.ExprStmt{X: call}}, Rbrace: call.End()},
+	}
+	x.info.Types[lit] = types.TypeAndValue{Type: types.NewSignatureType(nil, nil, nil, nil, nil, false)}
+	d.Call = &ast.CallExpr{Fun: lit, Lparen: at, Rparen: call.End()}
+	return true
+}
+
+// dropDeadClosures removes `v := func…{…}` definitions of closures all of whose
+// calls were expanded (the variable is no longer mentioned): what remains of
+// the literal is dead code that would otherwise be analysed out of context.
+func (x *expander) dropDeadClosures(body *ast.BlockStmt) {
+	uses := map[types.Object]int{}
+	ast.Inspect(body, func(n ast.Node) bool {
+		if id, ok := n.(*ast.Ident); ok {
+			if o := x.info.Uses[id]; o != nil {
+				uses[o]++
+			}
+		}
+		return true
+	})
+	dead := func(s ast.Stmt) bool {
+		as, ok := s.(*ast.AssignStmt)
+		if !ok || as.Tok != token.DEFINE || len(as.Lhs) != 1 || len(as.Rhs) != 1 {
+			return false
+		}
+		if _, isLit := ast.Unparen(as.Rhs[0]).(*ast.FuncLit); !isLit {
+			return false
+		}
+		id, ok := as.Lhs[0].(*ast.Ident)
+		if !ok {
+			return false
+		}
+		o := x.info.Defs[id]
+		_, known := x.closures[o]
+		return o != nil && known && uses[o] == 0
+	}
+	var filter func(list []ast.Stmt) []ast.Stmt
+	filter = func(list []ast.Stmt) []ast.Stmt {
+		var out []ast.Stmt
+		for _, s := range list {
+			if !dead(s) {
+				out = append(out, s)
+			}
+		}
+		return out
+	}
+	ast.Inspect(body, func(n ast.Node) bool {
+		switch t := n.(type) {
+		case *ast.BlockStmt:
+			t.List = filter(t.List)
+		case *ast.CaseClause:
+			t.Body = filter(t.Body)
+		case *ast.CommClause:
+			t.Body = filter(t.Body)
+		}
+		return true
+	})
 }
